@@ -85,6 +85,8 @@ TABLES = [
 WAIVERS = [
     (r"gen_prox\.py\|.*box-constr-problem\.hpp\|fn eval_prox_grad_step_box_l1(_scal)?@\d+\|dup .*duplicate `eval_prox_grad_step_box_l1_impl\(",
      "equivalent mutant: the call recomputes its outputs (x̂, p) from unchanged inputs, calling it twice changes nothing"),
+    (r"gen_C20_wrappers\.py\|.*dl-problem\.h\|struct alpaqa_(control_)?problem_functions_t@\d+\|swap ",
+     "equivalent for the translation: the members of the C function table are accessed by name (functions->NAME), their order is not part of the tables"),
     (r"gen_ocp\.py\|.*ocp-vars\.hpp\|fn forward@\d+\|swap .*swap `auto c[kN] = vars\.ck\(storage, [tN]\);` and `if \(vars\.nh(_N)?\(\) > 0\)",
      "equivalent mutant: `ck` / `cN` is a view into `storage` (no copy, no effect) that the following if statement does not use"),
     (r"gen_sparsity\.py\|.*sparsity-conversions\.hpp\|fn convert_values@\d+\|swap .*swap `(to\.setZero\(\)|from\(work\));` and `auto &&[Tf] = (to|work)\.reshaped\(",
@@ -219,6 +221,8 @@ def classify_block(M, partner, o):
             name = re.sub(r"\s+", "", m.group(1))
             if name in ("requires", "decltype", "sizeof", "alignas", "noexcept"):
                 return "other", name
+            if name.endswith("BEGIN_STRUCT"):                       # `ALPAQA_BEGIN_STRUCT(name) {` is `struct name {`
+                return "struct", M[po + 1:k - 1].strip()
             return "fn", name
         return "other", ""
     m = re.search(r"\b(struct|class|union|enum\s+class|enum|namespace)\b\s*([%s:]*)[^;{}()]*$" % IDC, seg)
@@ -932,8 +936,7 @@ def unit_mutants(u, info):
         return mutants_table(S, M, list_entries(M, u["a"], u["b"], partner), ",", "enum")
     if u["mode"] == "struct":
         sts = [s for s in statements(M, u["a"], u["b"], partner) if s["depth"] == 0 and s["kind"] == "simple"]
-        fields = [(s["start"], s["end"]) for s in sts if not re.match(r"\s*(using|static|template|friend|typedef|public|private|protected|static_assert)\b", M[s["start"]:s["end"]])
-                  and "(" not in re.sub(r"=.*", "", M[s["start"]:s["end"]], flags=re.S)]
+        fields = [(s["start"], s["end"]) for s in sts if not re.match(r"\s*(using|template|friend|typedef|public|private|protected|static_assert)\b", M[s["start"]:s["end"]])]
         return mutants_table(S, M, fields, ";", "struct")
     return []
 
